@@ -5,7 +5,11 @@
 (*   PrePivotOK(A)  SolveLSE (algebra.c): one pre-pass that swaps row k with the FIRST row i (searched from row 1!)    *)
 (*                  having a non-zero in column k whenever A[k][k] = 0, then plain forward elimination               *)
 (*   PivotOK(A)     the repaired scheme: row exchange at every step (succeeds on every non-singular matrix)          *)
-(* A matrix is a sequence of rows; its size is a parameter of every operator, so 1x1 .. 4x4 live in one model.       *)
+(* The determinant has three definitions that the invariants prove equal on every enumerated matrix: product of the  *)
+(* Gauss-Jordan pivots (DetOf), Laplace expansion (Lap) and the fraction-free Bareiss LU over the integers (BDet,     *)
+(* LUPivots: "the product of the pivots of an independent LU factorisation"); BDet is what the trace spec uses to     *)
+(* judge logged integer determinants up to 8 x 8 exactly.                                                             *)
+(* A matrix is a sequence of rows; its size is a parameter of every operator, so 1x1 .. 5x5 live in one model.       *)
 (* TLC does not memoise and evaluates [i \in S |-> e] lazily: all matrices are built as explicit sequences (SeqOf).   *)
 EXTENDS Integers, Sequences, FiniteSets, TLC, Json, Rat
 CONSTANTS Families,        \* which input families Init enumerates (strings, see Init)
@@ -31,6 +35,28 @@ RECURSIVE LapSum(_, _, _)
 LapSum(A, n, k) == IF k = 0 THEN 0
                    ELSE LapSum(A, n, k - 1) + (IF A[1][k] = 0 THEN 0 ELSE (IF k % 2 = 1 THEN 1 ELSE -1) * A[1][k] * Lap(MinorI(A, n, k), n - 1))
 Lap(A, n) == IF n = 1 THEN A[1][1] ELSE IF n = 2 THEN A[1][1] * A[2][2] - A[2][1] * A[1][2] ELSE LapSum(A, n, n)
+\* Third, independent definition: fraction-free (Bareiss) LU elimination WITH row exchange over the integers.  After step k the entry
+\* M[i][j] (i, j > k) is the (k+1)-minor of the row-exchanged matrix built on rows 1..k,i and columns 1..k,j (Sylvester's identity: the
+\* division by the previous pivot is exact), so the k-th diagonal entry is the k-th leading minor p_k, the LU pivots are u_kk = p_k / p_(k-1)
+\* and  det = sign * u_11 * ... * u_nn = sign * p_n : "the product of the pivots of an LU factorisation".
+SwapRowsI(M, a, b) == SeqOf(LAMBDA i : IF i = a THEN M[b] ELSE IF i = b THEN M[a] ELSE M[i], Len(M))
+RECURSIVE FirstNZI(_, _, _)
+FirstNZI(M, k, from) == IF from > Len(M) THEN 0 ELSE IF M[from][k] # 0 THEN from ELSE FirstNZI(M, k, from + 1)
+BarStep(S, n, k, prev) == SeqOf(LAMBDA i : IF i <= k THEN S[i]
+                                          ELSE SeqOf(LAMBDA j : IF j <= k THEN 0 ELSE (S[k][k] * S[i][j] - S[i][k] * S[k][j]) \div prev, n), n)
+\* [piv |-> <<p_1, .., p_n>> (leading minors of the row-exchanged matrix), sgn |-> sign of the row permutation, ok |-> non-singular]
+RECURSIVE Bar(_, _, _, _, _, _)
+Bar(M, n, k, prev, sgn, pivs) ==
+   IF k > n THEN [piv |-> pivs, sgn |-> sgn, ok |-> TRUE]
+   ELSE LET p == FirstNZI(M, k, k) IN
+        IF p = 0 THEN [piv |-> pivs, sgn |-> sgn, ok |-> FALSE]
+        ELSE LET S == SwapRowsI(M, k, p) IN Bar(BarStep(S, n, k, prev), n, k + 1, S[k][k], IF p = k THEN sgn ELSE -sgn, Append(pivs, S[k][k]))
+Bareiss(A) == Bar(A, Len(A), 1, 1, 1, <<>>)
+BDet(A) == LET b == Bareiss(A) IN IF b.ok THEN b.sgn * b.piv[Len(A)] ELSE 0
+\* the LU pivots as rationals u_kk = p_k / p_(k-1) and their product
+LUPivots(A) == LET b == Bareiss(A) IN SeqOf(LAMBDA k : IF k = 1 THEN RI(b.piv[1]) ELSE RDiv(RI(b.piv[k]), RI(b.piv[k - 1])), Len(b.piv))
+RECURSIVE RProdSeq(_, _)
+RProdSeq(s, k) == IF k = 0 THEN ROne ELSE RMul(s[k], RProdSeq(s, k - 1))
 
 (* ---------- rational matrices, Gauss-Jordan with row exchange ---------- *)
 ToR(A) == Mat(LAMBDA i, j : RI(A[i][j]), Len(A), Len(A[1]))
@@ -83,6 +109,8 @@ PivotOK(A) == Red(A, IdI(Len(A))).rank = Len(A)
 (* ---------- input families ---------- *)
 SmallVals == -2..2
 Vals3 == -1..2
+DiagVals == {-2, -1, 1, 2, 3}
+SymVals == -1..1
 Perms(n) == {p \in [1..n -> 1..n] : \A i, j \in 1..n : i # j => p[i] # p[j]}
 PermMat(p, n) == Mat(LAMBDA i, j : IF p[i] = j THEN 1 ELSE 0, n, n)
 \* 0/1 triangular matrices with unit diagonal (upper: up = TRUE); f maps the strict triangle to 0/1
@@ -105,6 +133,16 @@ Family(name) ==
     [] name = "tri4"  -> {TriMat(f, 4, up) : f \in [TriIdx(4) -> {0, 1}], up \in BOOLEAN}
     [] name = "ptri3" -> {MulI(PermMat(p, 3), TriMat(f, 3, TRUE)) : p \in Perms(3), f \in [TriIdx(3) -> {0, 1}]}   \* zero leading minors
     [] name = "ptri4" -> {M \in {MulI(PermMat(p, 4), TriMat(f, 4, TRUE)) : p \in Perms(4), f \in [TriIdx(4) -> {0, 1}]} : CodeMat(M) % Mod = Res}
+    \* the structured cases the quantifier names that the families above do not reach: diagonal, symmetric positive definite (L L' with L unit
+    \* lower triangular 0/1, optionally scaled by a positive diagonal), triangular with a non-unit diagonal, symmetric, 5 x 5 permutations
+    [] name = "diag3" -> {Mat(LAMBDA i, j : IF i = j THEN d[i] ELSE 0, 3, 3) : d \in [1..3 -> DiagVals]}
+    [] name = "diag4" -> {M \in {Mat(LAMBDA i, j : IF i = j THEN d[i] ELSE 0, 4, 4) : d \in [1..4 -> DiagVals]} : CodeMat(M) % Mod = Res}
+    [] name = "spd3"  -> {MulI(MulI(TriMat(f, 3, FALSE), Mat(LAMBDA i, j : IF i = j THEN d[i] ELSE 0, 3, 3)), TriMat(f, 3, TRUE)) : f \in [TriIdx(3) -> {0, 1}], d \in [1..3 -> {1, 2}]}
+    [] name = "spd4"  -> {MulI(TriMat(f, 4, FALSE), TriMat(f, 4, TRUE)) : f \in [TriIdx(4) -> {0, 1}]}
+    [] name = "trid3" -> {MulI(Mat(LAMBDA i, j : IF i = j THEN d[i] ELSE 0, 3, 3), TriMat(f, 3, up)) : f \in [TriIdx(3) -> {0, 1}], up \in BOOLEAN, d \in [1..3 -> {-1, 2}]}
+    [] name = "sym3"  -> {M \in SquareOver(3, SymVals) : \A i, j \in 1..3 : M[i][j] = M[j][i]}
+    [] name = "sym4"  -> {M \in {Mat(LAMBDA i, j : IF i <= j THEN f[<<i, j>>] ELSE f[<<j, i>>], 4, 4) : f \in [{<<i, j>> \in (1..4) \X (1..4) : i <= j} -> SymVals]} : CodeMat(M) % Mod = Res}
+    [] name = "perm5" -> {M \in {PermMat(p, 5) : p \in Perms(5)} : CodeMat(M) % Mod = Res}
     [] OTHER -> {}
 
 VARIABLES A, fam
@@ -123,6 +161,10 @@ Rhs(n) == SeqOf(LAMBDA i : 2 * i - 3, n)                                   \* -1
 Tall(M) == SeqOf(LAMBDA i : IF i <= Len(M) THEN M[i] ELSE SeqOf(LAMBDA j : IF j % 2 = 1 THEN 1 ELSE -1, Len(M)), Len(M) + 1)
 RhsTall(n) == SeqOf(LAMBDA i : IF i % 3 = 0 THEN -1 ELSE i, n + 1)
 DetAgree == LET red == Red(A, IdI(N)) IN DetOf(red) = RI(Lap(A, N))                         \* elimination = Laplace expansion
+\* the determinant is the (signed) product of the pivots of an independent LU factorisation - three definitions agree
+BareissAgree == /\ BDet(A) = Lap(A, N)
+                /\ LET b == Bareiss(A) IN b.ok <=> NonSingular(A)
+                /\ LET b == Bareiss(A) IN b.ok => RMul(RI(b.sgn), RProdSeq(LUPivots(A), N)) = RI(Lap(A, N))
 DetMul == Lap(MulI(A, Partner(N)), N) = Lap(A, N) * Lap(Partner(N), N) /\ Lap(MulI(A, TrI(A)), N) = Lap(A, N) * Lap(A, N)
 InverseLaw == LET red == Red(A, IdI(N)) IN red.rank = N =>
                  LET inv == RightPart(red, N, N) IN MulR(ToR(A), inv) = IdR(N) /\ MulR(inv, ToR(A)) = IdR(N)
@@ -142,7 +184,11 @@ SolveDefined == NonSingular(A) => IF Pivoting THEN PivotOK(A) ELSE PrePivotOK(A)
 \* (not a theorem: the pre-pass searches from row 1 and can move a zero onto an earlier diagonal position, e.g.
 \*  <<<<1,0,1>>, <<0,1,1>>, <<0,1,0>>>> needs no exchange at all but is broken by the pre-pass)
 PrePassCanBreak == NoPivotOK(A) => PrePivotOK(A)
-Theorems == DetAgree /\ DetMul /\ InverseLaw /\ SolveLaw /\ LsLaw /\ PenroseLaw
+\* symmetric input: the inverse is symmetric, and positive definite input (all leading minors positive without any exchange) has a positive determinant
+IsSym(M) == \A i, j \in 1..Len(M) : M[i][j] = M[j][i]
+SymLaw == (IsSym(A) /\ NonSingular(A)) => LET inv == Inverse(A) IN \A i, j \in 1..N : inv[i][j] = inv[j][i]
+SpdLaw == fam \in {"spd3", "spd4"} => LET b == Bareiss(A) IN b.ok /\ b.sgn = 1 /\ \A k \in 1..N : b.piv[k] > 0
+Theorems == DetAgree /\ BareissAgree /\ DetMul /\ InverseLaw /\ SolveLaw /\ LsLaw /\ PenroseLaw /\ SymLaw /\ SpdLaw
 
 (* ---------- emission: every matrix with the exact results the replay driver compares against ---------- *)
 CaseRec == LET red == Red(A, IdI(N)) ns == red.rank = N IN
